@@ -1,4 +1,4 @@
-"""python harness/seed_eval.py <PROP> <src_dir> [--tiers quick,thorough]
+"""python harness/seed_eval.py <PROP> <src_dir> [--tiers quick,thorough] [--name C01_3]
 Evaluate an independently written seeded change: src_dir holds patch.diff, demo.py, note.txt.
 1. confirm: demo exits 0 on the current /repo tree and non-zero with the patch (scratch copy outside /repo and /verif);
 2. run the property's check against the patched scratch copy (VERIF_REPO) - quick, then thorough if quick misses;
@@ -26,6 +26,8 @@ def main(argv):
     if "--tiers" in argv:
         tiers = argv[argv.index("--tiers") + 1].split(",")
     name = os.path.basename(os.path.dirname(src)).replace("_out", "") + "_" + os.path.basename(src)
+    if "--name" in argv:
+        name = argv[argv.index("--name") + 1]
     scratch = tempfile.mkdtemp(prefix="seed_eval_")
     meta = dict(property=prop, source=src, confirmed=False, checks=[])
     try:
